@@ -22,7 +22,7 @@ import (
 	"github.com/flamego/flamego/verifharness/internal/rt"
 )
 
-const rule = "case = a handler stack: 0..3 application middleware, 0..3 nested groups (some declared with the empty path) with 0..2 handlers each, 1..3 route handlers and an optional final action; each handler is a straight-line program of 0..4 operations over {write a status, write body bytes (Write or io.Copy; the underlying writer with or without io.ReaderFrom), Next(), Next() under a recover, cancel the request context (directly, through a derived context installed on the request, or by a deadline that has passed), install a live derived context on the request, re-register http.ResponseWriter with a wrapping flamego writer, panic (rarely)} plus an optional return value (non-empty string, empty string, nil error, non-nil error); the request may arrive with a context that is cancelled already; the route is declared with Any or with Get under AutoHead; the request is served twice on the same instance, and optionally a third time after Handlers() was called with no arguments (compared with an instance that never had middleware). " +
+const rule = "case = a handler stack: 0..3 application middleware, 0..3 nested groups (some declared with the empty path) with 0..2 handlers each, 1..3 route handlers and an optional final action; now and then 240..300 silent middleware in front of everything (a long chain); each handler is a straight-line program of 0..4 operations over {write a status, write body bytes (Write or io.Copy; the underlying writer with or without io.ReaderFrom), Next(), Next() under a recover, cancel the request context (directly, through a derived context installed on the request, or by a deadline that has passed), install a live derived context on the request, re-register http.ResponseWriter with a wrapping flamego writer, panic (rarely)} plus an optional return value (non-empty string, empty string, nil error, non-nil error); the request may arrive with a context that is cancelled already; the route is declared with Any or with Get under AutoHead; the request is served twice on the same instance, and optionally a third time after Handlers() was called with no arguments (compared with an instance that never had middleware). " +
 	"Oracle: the trace of enter/next/back/exit events, final status and body must equal those of a cursor interpreter written from the statement (cursor = next handler not yet started); plus model-free invariants on the real trace: handlers are entered as 0,1,2,... without gap or repetition, and enter/exit events nest like calls. " +
 	"non-trivial = a program with a Next() issued after a write or cancel, or >=2 Next() in one handler, or a write inside a handler reached through Next(), or a chain that reaches a nil action, or a panic crossing a recovering Next(); distinct by case text"
 
@@ -80,6 +80,9 @@ type Case struct {
 	// arguments (the application has no middleware any more) and the request is
 	// served once more: it must go like on an instance that never had any.
 	ClearMiddleware bool `json:"handlers_cleared_afterwards,omitempty"`
+	// Pad: that many silent handlers (they do nothing and return nothing) are the
+	// application's first middleware, in front of those listed: a long chain.
+	Pad int `json:"silent_middleware_in_front,omitempty"`
 }
 
 func (c Case) groupPath(d int) string {
@@ -492,6 +495,13 @@ func recWritten(rec *httptest.ResponseRecorder) bool {
 }
 
 func checkCase(c Case) (out evid.Outcome) {
+	if c.Pad > 0 {
+		c.Middleware = append(make([]H, c.Pad), c.Middleware...)
+		c.Pad = 0
+		out = checkCase(c)
+		out.Classes = append(out.Classes, "long-chain")
+		return out
+	}
 	out = checkAgainst(c, reference(c))
 	if out.Violation != "" && c.PreCancelled {
 		// a request that arrives cancelled: the statement says when the chain
@@ -788,6 +798,9 @@ func genCase(t *rapid.T) Case {
 	c.Wrapper = rapid.IntRange(0, 3).Draw(t, "wrapper") == 0
 	c.AutoHeadGet = rapid.IntRange(0, 3).Draw(t, "autoheadget") == 0
 	c.PreCancelled = rapid.IntRange(0, 11).Draw(t, "precancelled") == 0
+	if rapid.IntRange(0, 19).Draw(t, "long") == 0 {
+		c.Pad = rapid.IntRange(240, 300).Draw(t, "pad")
+	}
 	c.ClearMiddleware = len(c.Middleware) > 0 && rapid.IntRange(0, 3).Draw(t, "clearmw") == 0
 	if len(c.Groups) > 0 && rapid.IntRange(0, 3).Draw(t, "emptygroup") == 0 {
 		c.EmptyGroupPath = rapid.IntRange(1, 1<<len(c.Groups)-1).Draw(t, "emptymask")
@@ -810,6 +823,10 @@ func TestPinned(t *testing.T) {
 		{Middleware: []H{{Ops: []string{"n"}}, {Ops: []string{"n"}}}, Route: []H{{Ops: []string{"b"}}}, Action: &H{Ops: []string{"b"}}},
 		{Middleware: []H{{Ops: []string{"c"}}}, Route: []H{{Ops: []string{"b"}}}},
 		{Route: []H{{}}, Action: nil},
+		// long chains around the 255 / 256 marks
+		{Pad: 254, Route: []H{{Ops: []string{"n", "n"}}}, Action: &H{Ops: []string{"b"}}},
+		{Pad: 255, Route: []H{{}}, Action: &H{Ops: []string{"b"}}},
+		{Pad: 256, Middleware: []H{{Ops: []string{"n"}}}, Route: []H{{}, {Ops: []string{"b"}}}},
 	}
 	for _, c := range cases {
 		c := c
